@@ -169,7 +169,7 @@ def _add_zids(zdir: Path, page: Page) -> None:
             old_body = note.body.lstrip()
             if zdt.is_long_date_spec(old_body.split(" ")[0]):
                 old_body = " ".join(old_body.split(" ")[1:])
-            note.body = f"{zid} {old_body}"
+            note.body = f"{zid} {old_body}".rstrip()
             new_notes.append(note)
     if new_notes:
         page.events.append(
